@@ -462,6 +462,36 @@ func c03Run(ctx *core.Ctx) {
 		}
 	}
 
+	// Layer 6: key columns whose names look like decorated versions of each other ("-k" next to "k", "k desc",
+	// "+k"...): an order names its column literally, whatever other columns exist
+	for _, pr := range [][2]string{{"-k", "k"}, {"k", "-k"}, {"+k", "k"}, {"!k", "k"}, {"k desc", "k"}, {"k", "K"}, {" k", "k"}, {"-k", "w"}, {"k.1", "k"}, {"^k", "k"}} {
+		for n := 2; n <= 3; n++ {
+			forEachSeq(n, 4, func(seq []int) {
+				for oi := 0; oi < 8; oi++ {
+					if !ctx.Mine() {
+						continue
+					}
+					c1 := model.Col{Name: pr[0], Kind: model.Int}
+					c2 := model.Col{Name: pr[1], Kind: model.Int}
+					id := model.Col{Name: "id", Kind: model.Int}
+					for i, v := range seq {
+						c1.Cells = append(c1.Cells, model.I(v/2))
+						c2.Cells = append(c2.Cells, model.I(v%2))
+						id.Cells = append(id.Cells, model.I(i))
+					}
+					a, b := pr[oi%2], pr[1-oi%2]
+					ol := []ordSpec{{Col: a, Reverse: oi&2 != 0}}
+					if oi&4 != 0 {
+						ol = append(ol, ordSpec{Col: b, Reverse: oi&2 == 0})
+					}
+					c := sortCase{Layer: "L6", Frame: model.Frame{N: n, Cols: []model.Col{c1, c2, id}}, Shape: int(ctx.Index() % int64(model.NShapes)), Orders: ol}
+					exec(c, true)
+					ctx.Outcome("L6/decorated-column-names")
+				}
+			})
+		}
+	}
+
 	// Layer 2: algorithm regimes through the public API, int keys
 	ord := []ordSpec{{Col: "k"}}
 	n2, n3 := 16, 11
